@@ -360,8 +360,9 @@ func AttributeBuilders() []AttrBuilder {
 	for _, as := range []uint32{65000, 0, 65536, 0xffffffff} {
 		plain("aggregator4", fmt.Sprint(as), func() pa { return must(bgp.NewPathAttributeAggregator(as, a("255.255.255.255"))) })
 	}
+	// (zero-element COMMUNITIES / EXTENDED / IPv6-EXTENDED / LARGE community lists are malformed on the wire
+	// per RFC 7606 7.8, 7.14 and RFC 8092 section 5, so they are not part of the catalogue of valid values)
 	plain("communities", "1", func() pa { return bgp.NewPathAttributeCommunities([]uint32{0xfde80064}) })
-	plain("communities", "0", func() pa { return bgp.NewPathAttributeCommunities(nil) })
 	plain("communities", "wellknown", func() pa {
 		return bgp.NewPathAttributeCommunities([]uint32{0, 0xffffff01, 0xffffff02, 0xffffff03, 0xffff0006, 0xffffffff})
 	})
@@ -387,7 +388,6 @@ func AttributeBuilders() []AttrBuilder {
 			return bgp.NewPathAttributeExtendedCommunities([]bgp.ExtendedCommunityInterface{ExtCommunities()[i].EC})
 		})
 	}
-	plain("extcomm-list", "0", func() pa { return bgp.NewPathAttributeExtendedCommunities(nil) })
 	plain("extcomm-list", "3", func() pa {
 		ecs := ExtCommunities()
 		return bgp.NewPathAttributeExtendedCommunities([]bgp.ExtendedCommunityInterface{ecs[0].EC, ecs[7].EC, ecs[10].EC})
@@ -464,7 +464,6 @@ func AttributeBuilders() []AttrBuilder {
 	ip6("rt", func() []bgp.ExtendedCommunityInterface {
 		return []bgp.ExtendedCommunityInterface{must(bgp.NewIPv6AddressSpecificExtended(bgp.EC_SUBTYPE_ROUTE_TARGET, a("2001:db8::1"), 100, true))}
 	})
-	ip6("0", func() []bgp.ExtendedCommunityInterface { return nil })
 	ip6("nontrans-max", func() []bgp.ExtendedCommunityInterface {
 		return []bgp.ExtendedCommunityInterface{must(bgp.NewIPv6AddressSpecificExtended(bgp.EC_SUBTYPE_ROUTE_ORIGIN, a("ffff:ffff:ffff:ffff:ffff:ffff:ffff:ffff"), 0xffff, false))}
 	})
@@ -498,7 +497,6 @@ func AttributeBuilders() []AttrBuilder {
 	plain("large-community", "1", func() pa {
 		return bgp.NewPathAttributeLargeCommunities([]*bgp.LargeCommunity{bgp.NewLargeCommunity(65000, 1, 2)})
 	})
-	plain("large-community", "0", func() pa { return bgp.NewPathAttributeLargeCommunities(nil) })
 	plain("large-community", "bounds", func() pa {
 		return bgp.NewPathAttributeLargeCommunities([]*bgp.LargeCommunity{bgp.NewLargeCommunity(0, 0, 0), bgp.NewLargeCommunity(0xffffffff, 0xffffffff, 0xffffffff)})
 	})
